@@ -24,11 +24,53 @@ pub enum Ans {
     ErrBrokenPipe,
     ErrOutOfMemory,
     ErrWouldBlock,
+    /// any other stable `std::io::ErrorKind` (index into `OTHER_KINDS`)
+    ErrKind(u8),
 }
+
+/// every stable `ErrorKind` a sink may legitimately return besides the four named above
+/// (`Interrupted` is the benign answer, not a failure)
+pub const OTHER_KINDS: [ErrorKind; 35] = [
+    ErrorKind::NotFound,
+    ErrorKind::PermissionDenied,
+    ErrorKind::ConnectionRefused,
+    ErrorKind::ConnectionReset,
+    ErrorKind::HostUnreachable,
+    ErrorKind::NetworkUnreachable,
+    ErrorKind::ConnectionAborted,
+    ErrorKind::NotConnected,
+    ErrorKind::AddrInUse,
+    ErrorKind::AddrNotAvailable,
+    ErrorKind::NetworkDown,
+    ErrorKind::AlreadyExists,
+    ErrorKind::NotADirectory,
+    ErrorKind::IsADirectory,
+    ErrorKind::DirectoryNotEmpty,
+    ErrorKind::ReadOnlyFilesystem,
+    ErrorKind::StaleNetworkFileHandle,
+    ErrorKind::InvalidInput,
+    ErrorKind::InvalidData,
+    ErrorKind::TimedOut,
+    ErrorKind::WriteZero,
+    ErrorKind::StorageFull,
+    ErrorKind::NotSeekable,
+    ErrorKind::QuotaExceeded,
+    ErrorKind::FileTooLarge,
+    ErrorKind::ResourceBusy,
+    ErrorKind::ExecutableFileBusy,
+    ErrorKind::Deadlock,
+    ErrorKind::CrossesDevices,
+    ErrorKind::TooManyLinks,
+    ErrorKind::InvalidFilename,
+    ErrorKind::ArgumentListTooLong,
+    ErrorKind::Unsupported,
+    ErrorKind::UnexpectedEof,
+    ErrorKind::Other,
+];
 
 impl Ans {
     fn fatal(self) -> bool {
-        matches!(self, Ans::Zero | Ans::ErrOther | Ans::ErrBrokenPipe | Ans::ErrOutOfMemory | Ans::ErrWouldBlock)
+        matches!(self, Ans::Zero | Ans::ErrOther | Ans::ErrBrokenPipe | Ans::ErrOutOfMemory | Ans::ErrWouldBlock | Ans::ErrKind(_))
     }
 }
 
@@ -82,6 +124,7 @@ impl Write for FaultSink {
             Ans::ErrBrokenPipe => Err(io::Error::new(ErrorKind::BrokenPipe, "injected broken pipe")),
             Ans::ErrOutOfMemory => Err(io::Error::new(ErrorKind::OutOfMemory, "injected oom")),
             Ans::ErrWouldBlock => Err(io::Error::new(ErrorKind::WouldBlock, "injected would-block")),
+            Ans::ErrKind(i) => Err(io::Error::new(OTHER_KINDS[i as usize % OTHER_KINDS.len()], "injected failure of this kind")),
         };
         if ans.fatal() && !buf.is_empty() {
             s.fatal_answers += 1;
@@ -262,6 +305,51 @@ fn deviation_scripts(ncalls: usize, max_dev: usize, menu: &[Ans]) -> Vec<Script>
     out
 }
 
+/// For C02: whenever a finish call reports success - also a *retried* finish after a failed one -
+/// what the sink holds must be one well-formed file. Every history x failure at every write call
+/// x {Other, every other kind, Ok(0)} x three finish attempts.
+pub fn retry_part(ctx: &Ctx) -> Tally {
+    use oracle::reader::{parse_movie, Class};
+    let hs = histories();
+    par_items(&hs, ctx.seed, |idx, (name, cfg, ops), t| {
+        let mut full = ops.clone();
+        full.push(Op::FinishInPlace);
+        let ncalls = run_faulty(cfg, &full, &Script::default()).log.len();
+        full.push(Op::FinishInPlace);
+        full.push(Op::FinishInPlace);
+        let mut kinds = vec![Ans::ErrOther, Ans::Zero];
+        kinds.extend((0..OTHER_KINDS.len() as u8).map(Ans::ErrKind));
+        for k in 0..ncalls {
+            for (j, a) in kinds.iter().enumerate() {
+                let script = Script { answers: vec![(k, *a)], budget: None };
+                let r = run_faulty(cfg, &full, &script);
+                t.evaluations += 1;
+                t.states += 1;
+                t.transitions += r.results.len() as u64;
+                let order = (5_000_000 + idx as u64, (k * 64 + j) as u64);
+                let case = || json!({"engine": "E3-c02", "history": name, "cfg": cfg, "ops": full, "script": script});
+                if let Some((i, m)) = r.results.iter().enumerate().find_map(|(i, x)| if let Res::Panic(m) = x { Some((i, m.clone())) } else { None }) {
+                    t.violation("C02/after-failed-finish/panic", order, || format!("{name}: call {i} panicked: {m}"), case);
+                    continue;
+                }
+                let n = r.results.len();
+                let any_ok = r.results[n - 3..].iter().any(|x| x.is_ok());
+                t.outcome(oracle::report::h64(&r.accepted) ^ any_ok as u64);
+                if !any_ok {
+                    t.count("no_finish_reported_success", 1);
+                    continue;
+                }
+                t.traces += 1;
+                let m = parse_movie(&r.accepted, "prog");
+                if let Some(p) = m.probs.of(&[Class::Tile, Class::Mandatory, Class::Count]).first() {
+                    // (the box path of the first problem is in the detail; it depends on the bytes)
+                    t.violation("C02/after-failed-finish/not-one-well-formed-file", order, || format!("{name}: write call {k} answered {a:?}; a finish call then reported success, but the sink holds {} bytes that are not one well-formed file: {}: {}", r.accepted.len(), p.sig, p.detail), case);
+                }
+            }
+        }
+    })
+}
+
 pub fn check(ctx: &Ctx) -> i32 {
     let max_dev = if ctx.thorough { 3 } else { 2 };
     let mut items = vec![];
@@ -280,6 +368,11 @@ pub fn check(ctx: &Ctx) -> i32 {
         for k in 0..ncalls {
             for a in [Ans::ErrOther, Ans::ErrBrokenPipe, Ans::ErrOutOfMemory, Ans::ErrWouldBlock, Ans::Zero] {
                 scripts.push(Script { answers: vec![(k, a)], budget: None });
+            }
+            // every other error kind of the standard library (the muxer must not interpret a
+            // sink's error kind)
+            for i in 0..OTHER_KINDS.len() as u8 {
+                scripts.push(Script { answers: vec![(k, Ans::ErrKind(i))], budget: None });
             }
         }
         // (b) accept exactly j bytes, then fail: every offset (for the >64 KiB file: every 1021st
@@ -340,7 +433,7 @@ pub fn check(ctx: &Ctx) -> i32 {
         &tally,
         Meta {
             level: "fault_enumeration",
-            rule: format!("{nhist} representative histories (video-only with reordering, A/V, zero-frame, single-frame; fast start on/off; with/without metadata; 4 codecs, AAC and Opus) finished on a scripted sink. Enumerated per history: (a) failure at every write call x {{Other, BrokenPipe, OutOfMemory, WouldBlock, Ok(0)}}; (b) every byte budget j (accept exactly j bytes, then fail) for every offset of the fault-free output; (c) every schedule with <= {max_dev} deviations from accept-all over {{1 byte, half, Interrupted}}, and every 1-deviation schedule followed by a failure at every later call; (d) the full product of {{all, 1 byte, half, Interrupted}} over all calls for files written in <= 8 calls; after the finish attempt every continuation of <= 2 calls from {{finish, write_video, write_audio, finish_with_stats}} (for single-answer scripts). A case is distinct by (result vector, bytes the sink accepted)."),
+            rule: format!("{nhist} representative histories (video-only with reordering, A/V, zero-frame, single-frame; fast start on/off; with/without metadata; 4 codecs, AAC and Opus) finished on a scripted sink. Enumerated per history: (a) failure at every write call x {{Ok(0), and every stable std::io::ErrorKind except Interrupted (39 kinds)}}; (b) every byte budget j (accept exactly j bytes, then fail) for every offset of the fault-free output; (c) every schedule with <= {max_dev} deviations from accept-all over {{1 byte, half, Interrupted}}, and every 1-deviation schedule followed by a failure at every later call; (d) the full product of {{all, 1 byte, half, Interrupted}} over all calls for files written in <= 8 calls; after the finish attempt every continuation of <= 2 calls from {{finish, write_video, write_audio, finish_with_stats}} (for single-answer scripts). A case is distinct by (result vector, bytes the sink accepted)."),
             bound: format!("<= {max_dev} benign deviations; all single failure points; all byte offsets"),
             exhaustive: true,
             assumptions: vec!["a sink that answers Interrupted forever is excluded (write_all livelocks by contract)".into(), "Ok(0) on a non-empty buffer counts as a failure (write_all reports WriteZero)".into()],
@@ -353,6 +446,27 @@ pub fn replay(case: &Value) -> i32 {
     let cfg: Cfg = serde_json::from_value(case["cfg"].clone()).expect("cfg");
     let ops: Vec<Op> = serde_json::from_value(case["ops"].clone()).expect("ops");
     let script: Script = serde_json::from_value(case["script"].clone()).expect("script");
+    if case["engine"].as_str() == Some("E3-c02") {
+        use oracle::reader::{parse_movie, Class};
+        let r = run_faulty(&cfg, &ops, &script);
+        println!("history: {}", brief_ops(&ops));
+        println!("script: {script:?}");
+        println!("results: {:?}", r.results.iter().map(|x| x.brief()).collect::<Vec<_>>());
+        let n = r.results.len();
+        if !r.results[n.saturating_sub(3)..].iter().any(|x| x.is_ok()) {
+            println!("replay: no finish call reported success; property C02 holds for this case");
+            return 0;
+        }
+        let m = parse_movie(&r.accepted, "prog");
+        let probs = m.probs.of(&[Class::Tile, Class::Mandatory, Class::Count]);
+        for p in &probs {
+            println!("replay: VIOLATION {}: {}", p.sig, p.detail);
+        }
+        if probs.is_empty() {
+            println!("replay: property C02 holds for this case");
+        }
+        return if probs.is_empty() { 0 } else { 1 };
+    }
     let cont: Vec<Op> = serde_json::from_value(case["continuation"].clone()).expect("continuation");
     let mut full = ops.clone();
     full.push(Op::FinishInPlaceStats);
